@@ -5,6 +5,7 @@
   untrusted: the check validates what it uses.
 -/
 import Bashlex.LR.Sound
+import Bashlex.LR.Exact
 import Bashlex.LR.RealTables
 
 namespace Bashlex.LR
@@ -210,6 +211,49 @@ theorem check_sound {R : Raw} (hc : R.check = true) :
     obtain ⟨e, hmem, hk, hd⟩ := action_mem (R := R) hact
     have := hacc0 e hmem
     simp [hd] at this
+
+end Raw
+end Bashlex.LR
+
+namespace Bashlex.LR
+set_option linter.unusedSimpArgs false
+
+namespace Raw
+
+/-- boolean check for `AccOK`: the accepting symbols `A` have a goto only from state 0 and every
+    state holding the accept action is entered only from state 0 -/
+def checkAcc (R : Raw) (A : List Nat) : Bool :=
+  R.reach.all fun s =>
+    (R.gotoRow s).all (fun e => !(A.contains (e / 4096)) || s == 0) &&
+    ((R.actionRow s).all (fun e => decodeAct (e % 4096) != .accept) || (R.predsOf s).all (· == 0))
+
+theorem checkAcc_sound {R : Raw} {A : List Nat} (hc : R.check = true) (ha : R.checkAcc A = true) :
+    AccOK R.toTables (· ∈ R.reach) (· ∈ A) := by
+  unfold checkAcc at ha
+  simp only [List.all_eq_true, Bool.and_eq_true] at ha
+  refine ⟨?_, ?_⟩
+  · intro s lhs t hs hA hg
+    obtain ⟨e, hmem, hk, _⟩ := goto_mem (R := R) hg
+    have := (ha s hs).1 e hmem
+    simp only [Bool.or_eq_true, Bool.not_eq_true', beq_iff_eq] at this
+    rcases this with h | h
+    · rw [hk] at h
+      have : A.contains lhs = true := by simpa using hA
+      rw [this] at h; cases h
+    · exact h
+  · intro s la hs hact s' hs' X hedge
+    obtain ⟨e, hmem, _, hd⟩ := action_mem (R := R) hact
+    have h2 := (ha s hs).2
+    simp only [Bool.or_eq_true, List.all_eq_true] at h2
+    rcases h2 with h | h
+    · have := h e hmem
+      simp [hd] at this
+    · have hce := edge_ok hc hs' hedge
+      unfold checkEdge at hce
+      simp only [Bool.and_eq_true, List.contains_iff_mem] at hce
+      have hmem' : s' ∈ R.predsOf s := by simpa using hce.2
+      have := h s' hmem'
+      simpa using this
 
 end Raw
 end Bashlex.LR
